@@ -30,12 +30,15 @@ type params struct {
 // reach a re-assigned message; driving it by a direct keeper call produced an alarm
 // (cq/stale-signature-kept-after-relayer-change) about a state no real chain is in. The scripted
 // opening is kept in the source for the day the function gets wired in.
-var kinds = []string{"cq", "batch", "alias", "handover", "mix", "cq", "cq", "batch", "mix", "mix"}
+//
+// "feegap" (11th slot, feegap.go): estimate consensus for a fee-paying message while the fee computation
+// cannot succeed, signatures collected meanwhile, fees attached after the cause is gone.
+var kinds = []string{"cq", "batch", "alias", "handover", "mix", "cq", "cq", "batch", "mix", "mix", "feegap"}
 
 func cases(tier string, seed int64) []fw.Case {
-	n, steps := 80, 80
+	n, steps := 88, 80
 	if tier == "thorough" {
-		n, steps = 160, 160
+		n, steps = 176, 160
 	}
 	var cs []fw.Case
 	for i := 0; i < n; i++ {
@@ -72,6 +75,8 @@ func run(c fw.Case, tier string, rec *fw.Recorder) {
 		h.scriptHandover()
 	case "reassign":
 		h.scriptReassign()
+	case "feegap":
+		h.scriptFeeGap()
 	}
 	h.walk(p.Steps, p.Kind)
 	h.mon.finish()
@@ -309,6 +314,7 @@ func (h *hist) walk(steps int, kind string) {
 		{4, h.opReRegister},
 		{2, h.opSameKey},
 		{2, h.opHandover},
+		{2, h.opFeeGap},
 	}
 	if kind == "alias" || kind == "mix" {
 		ops = append(ops, wop{2, func() { h.opAlias([]string{"padded-pubkey", "address-case"}[h.r.Intn(2)]) }},
@@ -337,9 +343,10 @@ func init() {
 		Rule: "seed-determined histories on the real app (4-6 validators, 1-2 EVM chains, bridged tokens): scripted openings per kind " +
 			"(cq: sign -> re-register -> elect estimate/attach fees -> sign again; batch: confirm -> elect batch estimate -> confirm again -> executed/timeout; " +
 			"alias: a validator registers another one's key in a different encoding; handover: a released key is registered by another validator; " +
-			"reassign: relayer re-assignment through the exported keeper function; mix: none) followed by a weighted random walk over " +
+			"feegap: estimate consensus for a fee-paying message while its fees cannot be computed (assignee's relayer fee zero / negative / overflowing, treasury fee unusable), signatures collected meanwhile, cause removed, fees attached; " +
+			"mix: none) followed by a weighted random walk over " +
 			"sign / confirm (valid, garbage, wrong key, other validator's key, replayed foreign signature, duplicate, stale bytes, foreign orchestrator, carried by a user), " +
-			"gas estimates with and without quorum, job executions, transfers, batch building, executed claims, time-outs, key re-registrations, same-key registration attempts. " +
+			"gas estimates with and without quorum, job executions, transfers, batch building, executed claims, time-outs, key re-registrations, same-key registration attempts, self-contained fee-gap rounds. " +
 			"The invariant is evaluated after EVERY block over all messages of all consensus queues and all batches. " +
 			"evaluations = stored signatures / confirms verified with ecrecover; distinct_nontrivial = distinct per-item event traces (accepted and rejected " +
 			"signature attempts by mode and reason, signing-byte changes with cause and number of signatures before/after, re-registrations of signers) of items " +
@@ -350,10 +357,12 @@ func init() {
 			"signatures must be discarded when the signing BYTES change; an attribute change that leaves the bytes identical (elected estimate equal to the default) is only counted",
 			"batch confirms whose batch no longer exists are counted, not judged (they are not kept with an item)",
 			"re-deployment of compass (new turnstone id) while batches are pending is not exercised",
+			"treasury community-fund / security fee settings are written with the keeper functions the governance proposal handler calls with the proposal's (unvalidated) string - in the set-up and for the treasury causes of a fee gap; relayer fees are changed with real MsgUpsertRelayerFee transactions of the assignee",
 		},
-		Cases:       cases,
-		Run:         run,
-		MinCounters: []string{"cq/signatures_verified", "batch/confirms_verified", "cq/changes_with_signatures_to_discard", "batch/changes_with_signatures_to_discard"},
-		TimeoutS:    1200,
+		Cases: cases,
+		Run:   run,
+		MinCounters: []string{"cq/signatures_verified", "batch/confirms_verified", "cq/changes_with_signatures_to_discard", "batch/changes_with_signatures_to_discard",
+			"cq/fee_gap/signed_in_gap_then_fees_attached"},
+		TimeoutS: 1200,
 	})
 }
